@@ -3,7 +3,7 @@
    deviation F3 and for the rule before the F4 fix and Print Assumptions.
    Model: Factory/Model.v (+ Factory/Scenario.v for concrete histories); proofs: Factory/Conserve.v. *)
 From Coq Require Import List NArith Bool Permutation.
-From RV Require Import Factory.Model Factory.Scenario Factory.Oracle Factory.Conserve.
+From RV Require Import Factory.Model Factory.Scenario Factory.Oracle Factory.Conserve Factory.RouteCouple.
 Import ListNotations.
 Local Open Scope N_scope.
 
@@ -75,12 +75,25 @@ Theorem C13_finalize_empties : forall w,
   fstatus (finalize w) = FStopped /\ pool (finalize w) = [] /\ inbox_msg (finalize w) = [].
 Proof. exact finalize_empties. Qed.
 
+(* (8) "at most one job per worker death": over histories without stale completions (run_ok, see
+   Properties/C14.v) a worker actor never holds more than one job (mailbox + handler), and the
+   death of a worker loses at most one. With stale completions both are false (F3, witness below). *)
+Theorem C13_worker_holds_one : forall c n d rls ls a x,
+  run_ok c (init c n d rls) ls ->
+  lookup a (actors (run c (init c n d rls) ls)) = Some x -> (length (actor_jobs x) <= 1)%nat.
+Proof. exact real_one_at_a_time. Qed.
+
+Theorem C13_one_per_death : forall c n d rls ls a,
+  run_ok c (init c n d rls) ls ->
+  let w := run c (init c n d rls) ls in
+  (length (lost_ids (step c w (LWDie a))) <= length (lost_ids w) + 1)%nat.
+Proof. exact one_per_death. Qed.
+
 (* OPEN (not proved; stated for the record):
    C13_terminal (global form): fstatus w = FStopped -> live_jobs w = [] for every reachable w. The
    local halves are (7); the global form additionally needs the frame invariants "held -> running",
    "nothing is queued while the factory is not running" and "dead actors hold nothing".
-   C13_one_per_death: without stale completions a worker death loses at most one job; false
-   with stale completions (F3, witness below). *)
+   returned subset discarded (checked by the oracle on every run). *)
 
 (* ---- pins *)
 Check (C13_places_partition : forall c n d rls ls,
@@ -155,3 +168,5 @@ Print Assumptions C13_no_silent_loss.
 Print Assumptions C13_replacement_inherits.
 Print Assumptions C13_stop_discards_queues.
 Print Assumptions C13_finalize_empties.
+Print Assumptions C13_worker_holds_one.
+Print Assumptions C13_one_per_death.
